@@ -165,3 +165,80 @@ func anyAssert(prop, pkgRel, harness string) bool {
 	}
 	return false
 }
+
+// cmdSelftest runs the native validation functions (verifST_*) that belong to a property's harness files: they compare
+// harness-side models against the real libraries they stand for. Exit 0 = all agree.
+func cmdSelftest(args []string) int {
+	if len(args) < 1 {
+		fmt.Fprintln(os.Stderr, "usage: sv selftest <prop>")
+		return 2
+	}
+	prop := args[0]
+	rc := 0
+	for pkgRel, files := range harnessFilesFor(prop) {
+		var fns []string
+		for _, f := range files {
+			b, _ := os.ReadFile(f)
+			for _, l := range strings.Split(string(b), "\n") {
+				if strings.HasPrefix(l, "func verifST_") {
+					name := strings.TrimPrefix(l, "func ")
+					fns = append(fns, name[:strings.Index(name, "(")])
+				}
+			}
+		}
+		if len(fns) == 0 {
+			continue
+		}
+		ov, err := buildOverlay(pkgRel, files)
+		if err != nil {
+			fmt.Println(err)
+			return 2
+		}
+		os.MkdirAll(filepath.Join(verifRoot, ".work"), 0o755)
+		work, err := os.MkdirTemp(filepath.Join(verifRoot, ".work"), "selftest-")
+		if err != nil {
+			fmt.Println(err)
+			return 2
+		}
+		pkgDir := filepath.Join(repoDir, pkgRel)
+		name, _ := packageName(pkgDir)
+		var body strings.Builder
+		for _, fn := range fns {
+			body.WriteString("\t" + fn + "()\n")
+		}
+		ov[filepath.Join(pkgDir, "zz_verif_selftest_test.go")] = []byte(fmt.Sprintf("package %s\n\nimport \"testing\"\n\nfunc TestVerifSelftest(t *testing.T) {\n%s}\n", name, body.String()))
+		repl := map[string]string{}
+		i := 0
+		for virt, content := range ov {
+			real := filepath.Join(work, fmt.Sprintf("f%d_%s", i, filepath.Base(virt)))
+			i++
+			os.WriteFile(real, content, 0o644)
+			repl[virt] = real
+		}
+		ovPath := filepath.Join(work, "overlay.json")
+		writeJSON(ovPath, map[string]interface{}{"Replace": repl})
+		pat := "./" + pkgRel
+		if pkgRel == "" {
+			pat = "."
+		}
+		cmd := osexec.Command("go", "test", "-vet=off", "-count=1", "-timeout", "300s", "-run", "^TestVerifSelftest$", "-overlay", ovPath, pat)
+		cmd.Dir = repoDir
+		cmd.Env = append(os.Environ(), "GOFLAGS=-mod=mod", "GOPROXY=off", "GOSUMDB=off", "GOTOOLCHAIN=local", "VERIF_REPLAY=/dev/null")
+		out, err := cmd.CombinedOutput()
+		os.RemoveAll(work)
+		if err != nil {
+			fmt.Printf("SELFTEST-FAILED %s %v\n%s\n", pkgRel, fns, firstN(string(out), 2000))
+			rc = 1
+		} else {
+			fmt.Printf("selftest ok: %s %v\n", pkgRel, fns)
+		}
+	}
+	return rc
+}
+
+func firstN(s string, n int) string {
+	if len(s) > n {
+		return s[:n]
+	}
+	return s
+}
